@@ -3,11 +3,17 @@
 package main
 
 import (
+	"strconv"
 	"strings"
 
 	"github.com/cinar/indicator/v2/asset"
+	"github.com/cinar/indicator/v2/momentum"
 	"github.com/cinar/indicator/v2/strategy"
+	"github.com/cinar/indicator/v2/strategy/compound"
 	"github.com/cinar/indicator/v2/strategy/decorator"
+	smomentum "github.com/cinar/indicator/v2/strategy/momentum"
+	svolume "github.com/cinar/indicator/v2/strategy/volume"
+	"github.com/cinar/indicator/v2/volume"
 )
 
 // Compound and decorator strategies over catalogued base strategies.  The configuration vector of a
@@ -69,6 +75,7 @@ func mkCompound(name string, wrap wrapFn, subNames ...string) Pipe {
 }
 
 func registerCompounds() {
+	registerLevelVariants()
 	// auxiliary pipelines used as oracles by the checks (not library pipelines under test)
 	register(Pipe{Name: "aux.Closings", Class: "aux", Inputs: snapIn, Params: ps(), Default: cfgOf(),
 		Make: func(cfg []int) Inst {
@@ -116,3 +123,54 @@ func registerCompounds() {
 		mkCompound("decorator.Inverse.And", invAnd, aroon, bop),
 	)
 }
+
+// Level variants: strategies whose With-constructor takes Buy/Sell levels, at levels that differ from the defaults
+// the pinned tests use - in particular levels at the indicator's neutral value (50 for RSI / MFI, 0.5 for the stochastic
+// RSI), where a numeric fill value would be mistaken for a signal.
+func registerLevelVariants() {
+	type lv struct{ a, b float64 }
+	for _, l := range []lv{{30, 50}, {50, 70}, {10, 90}} {
+		l := l
+		register(Pipe{Name: "strategy/momentum.RsiStrategy@" + ftoa(l.a) + "-" + ftoa(l.b), Class: "strategy", Inputs: snapIn, Params: ps("period"),
+			Default: cfgOf(momentum.DefaultRsiPeriod), Fields: []string{"Close"},
+			Make: func(cfg []int) Inst {
+				s := smomentum.NewRsiStrategyWith(l.a, l.b)
+				s.Rsi.Rma.Period = cfg[0]
+				return stratInst(s, nil)
+			}})
+	}
+	for _, l := range []lv{{80, 50}, {50, 20}} { // (sellAt, buyAt)
+		l := l
+		register(Pipe{Name: "strategy/volume.MoneyFlowIndexStrategy@" + ftoa(l.a) + "-" + ftoa(l.b), Class: "strategy", Inputs: snapIn, Params: ps("period"),
+			Default: cfgOf(volume.DefaultMfiPeriod), Fields: []string{"Close", "High", "Low", "Volume"},
+			Make: func(cfg []int) Inst {
+				s := svolume.NewMoneyFlowIndexStrategyWith(l.a, l.b)
+				s.MoneyFlowIndex.Sum.Period = cfg[0]
+				return stratInst(s, nil)
+			}})
+	}
+	for _, l := range []lv{{0.5, 0.2}, {0.8, 0.5}} {
+		l := l
+		register(Pipe{Name: "strategy/momentum.StochasticRsiStrategy@" + ftoa(l.a) + "-" + ftoa(l.b), Class: "strategy", Inputs: snapIn, Params: ps("period"),
+			Default: cfgOf(momentum.DefaultStochasticRsiPeriod), Fields: []string{"Close"},
+			Make: func(cfg []int) Inst {
+				s := smomentum.NewStochasticRsiStrategyWith(l.a, l.b)
+				s.StochasticRsi = momentum.NewStochasticRsiWithPeriod[float64](cfg[0])
+				return stratInst(s, nil)
+			}})
+	}
+	for _, l := range []lv{{30, 50}, {50, 70}} {
+		l := l
+		register(Pipe{Name: "strategy/compound.MacdRsiStrategy@" + ftoa(l.a) + "-" + ftoa(l.b), Class: "strategy", Inputs: snapIn,
+			Params: ps("period1", "period2", "period3", "rsi"), Default: cfgOf(12, 26, 9, 14), Fields: []string{"Close"},
+			Valid: func(c []int) bool { return c[0] <= c[1] },
+			Make: func(cfg []int) Inst {
+				s := compound.NewMacdRsiStrategyWith(l.a, l.b)
+				s.MacdStrategy.Macd.Ema1.Period, s.MacdStrategy.Macd.Ema2.Period, s.MacdStrategy.Macd.Ema3.Period = cfg[0], cfg[1], cfg[2]
+				s.RsiStrategy.Rsi.Rma.Period = cfg[3]
+				return stratInst(s, nil)
+			}})
+	}
+}
+
+func ftoa(f float64) string { return strconv.FormatFloat(f, 'g', -1, 64) }
